@@ -13,6 +13,7 @@ import (
 	"github.com/Breeze0806/mysql"
 	"verif/chk"
 	"verif/hx"
+	"verif/nmem"
 	"verif/ref"
 	"verif/simmaster"
 )
@@ -53,7 +54,7 @@ type Outcome struct {
 type session struct {
 	master  *simmaster.Master
 	mu      sync.Mutex
-	servers []*conn
+	servers []*nmem.Conn
 	lock    bool
 }
 
@@ -69,7 +70,7 @@ func dial(ctx context.Context, address string) (net.Conn, error) {
 		return nil, fmt.Errorf("nmem: no session %q", address)
 	}
 	s := v.(*session)
-	cl, sv := pair()
+	cl, sv := nmem.Pair()
 	s.mu.Lock()
 	idx := s.master.NewConnLog()
 	s.servers = append(s.servers, sv)
@@ -111,7 +112,7 @@ func Run(h *ref.History, o Opts) *Outcome {
 			s.mu.Lock()
 			sv := s.servers[ci]
 			s.mu.Unlock()
-			sv.waitPeerIdle()
+			sv.WaitPeerIdle()
 		}
 	}
 	sessions.Store(id, s)
